@@ -188,7 +188,7 @@ VF_PROPERTY(xml_forward_attributes, 3, "arrays of typed records with three attri
 }
 
 VF_PROPERTY(xml_converse, 5, "the infoset of the same trees rendered by an independent emitter: predefined entities or decimal / hex character references for any character, whole-value CDATA sections, '>' raw or escaped, permuted members of objects, white space between elements (SP, HT, LF, CRLF), four declaration variants (none / version / encoding / standalone), closing tags with a trailing blank; in memory or as a stream in 5 encodings with or without BOM; each emitted document is first checked with libxml2 (self-check); oracle: loading into a target of the tree's shape yields the same tree; non-trivial = references, CDATA, a permutation or a non-UTF-8 encoding was used") {
-	GenCtx g = GenCtx::forArch(XML); Cfg cfg; cfg.stream = c.src.coin(); cfg.streamKind = cfg.stream ? static_cast<int>(c.src.draw(3)) : 0; cfg.chunk = 1 + c.src.draw(40);
+	GenCtx g = GenCtx::forArch(XML); Cfg cfg; cfg.stream = c.src.coin(); cfg.streamKind = cfg.stream ? static_cast<int>(c.src.draw(4)) : 0; cfg.chunk = 1 + c.src.draw(40);
 	const int enc = cfg.stream ? static_cast<int>(c.src.draw(5)) : 0; const bool bom = cfg.stream && c.src.coin();
 	size_t keyIdx = 0; const Val v = gen_tree(c.src, g, 3, keyIdx, true); const El root = el_of(v.t == RT::Arr ? "array" : "root", v);
 	const int style = static_cast<int>(c.src.draw(3)); const bool permute = c.src.coin(); const bool ws = c.src.coin();
@@ -206,7 +206,7 @@ VF_PROPERTY(xml_converse, 5, "the infoset of the same trees rendered by an indep
 }
 
 VF_PROPERTY(xml_converse_attributes, 3, "typed records with attributes rendered by the independent emitter (either quote style, permuted attributes and members, character references incl. TAB / LF inside attribute values, blanks around '='): loads to equal records; non-trivial = always") {
-	GenCtx g = GenCtx::forArch(XML); Cfg cfg; cfg.stream = c.src.coin(); cfg.streamKind = cfg.stream ? static_cast<int>(c.src.draw(3)) : 0; cfg.chunk = 1 + c.src.draw(40);
+	GenCtx g = GenCtx::forArch(XML); Cfg cfg; cfg.stream = c.src.coin(); cfg.streamKind = cfg.stream ? static_cast<int>(c.src.draw(4)) : 0; cfg.chunk = 1 + c.src.draw(40);
 	const int enc = cfg.stream ? static_cast<int>(c.src.draw(5)) : 0; const bool bom = cfg.stream && c.src.coin();
 	std::vector<Rec> recs; for (size_t n = 1 + c.src.len(3); n > 0; n--) recs.push_back(gen_rec(c.src, g));
 	El root; root.name = "array"; root.leaf = false; root.isArray = true; for (auto& r : recs) root.kids.push_back(el_of_rec(r));
@@ -220,6 +220,26 @@ VF_PROPERTY(xml_converse_attributes, 3, "typed records with attributes rendered 
 	const std::string d = vf::cat("text=", text.substr(0, 700), " [", cfg.str(), " enc=", refutf::enc_name(enc), " bom=", bom, "] => ", lo.str(), " loaded=", got.empty() ? std::string("-") : rec_str(got[0]), " want=", rec_str(recs[0]));
 	if (!lo.ok()) c.fail("a standard rendering of the data is rejected", d);
 	if (!(got == recs)) c.fail("a standard rendering of the data loads to a different value", d);
+}
+
+VF_PROPERTY(xml_empty_root_array, 1, "the empty root array (the one empty container XML can carry, cf. KF-12) as any standard emitter renders it: <array/>, <array></array> or start and end tag separated by white space only (SP, HT, LF, CRLF), with or without declaration, comment and trailing line break: loads as an empty vector<string> / vector<int> / list<double> from memory and streams; white space in element-only content is not data; non-trivial = white space between the tags") {
+	Cfg cfg; cfg.stream = c.src.coin(); cfg.streamKind = cfg.stream ? static_cast<int>(c.src.draw(4)) : 0; cfg.chunk = 1 + c.src.draw(40);
+	static const char* wsu[] = { " ", "\t", "\n", "\r\n", "  ", "\n\t" }; std::string ws; for (size_t n = c.src.len(4); n > 0; n--) ws += wsu[c.src.draw(6)];
+	const int form = static_cast<int>(c.src.draw(3)); std::string text;
+	if (c.src.coin()) text += c.src.coin() ? "<?xml version=\"1.0\"?>" : "<?xml version=\"1.0\" encoding=\"UTF-8\"?>\n";
+	if (c.src.chance(1, 4)) text += "<!-- empty -->";
+	text += form == 0 ? (ws.empty() ? std::string("<array/>") : "<array" + ws + "/>") : form == 1 ? std::string("<array></array>") : "<array>" + ws + "</array>";
+	if (c.src.coin()) text += "\n";
+	Doc doc; if (!parse_xml(text, doc)) c.fail("self-check: the reference emitter produced a document libxml2 rejects", text);
+	{ xmlNode* r = xmlDocGetRootElement(doc.p); for (xmlNode* k = r ? r->children : nullptr; k; k = k->next) if (k->type == XML_ELEMENT_NODE) c.fail("self-check: the document is not an empty array", text); }
+	c.nontrivial = form == 2 && !ws.empty(); const int tk = static_cast<int>(c.src.draw(3)); c.describe(vf::cat("xml empty root array form=", form, " ws=", vf::hex(ws), " target=", tk, " [", cfg.str(), "]"));
+	size_t n = 0; Outcome lo;
+	if (tk == 0) { std::vector<std::string> t{ "stale" }; lo = load<XmlArchive>(t, text, cfg); n = t.size(); }
+	else if (tk == 1) { std::vector<int> t{ 1, 2 }; lo = load<XmlArchive>(t, text, cfg); n = t.size(); }
+	else { std::list<double> t{ 0.5 }; lo = load<XmlArchive>(t, text, cfg); n = t.size(); }
+	const std::string d = vf::cat("text=", text, " target=", tk == 0 ? "vector<string>" : tk == 1 ? "vector<int>" : "list<double>", " [", cfg.str(), "] => ", lo.str(), " elements=", n);
+	if (!lo.ok()) c.fail("a standard rendering of the data is rejected", d);
+	if (n != 0) c.fail("a standard rendering of the data loads to a different value", d);
 }
 
 VF_MAIN("c08_xml")
